@@ -52,6 +52,7 @@ PROP = [  # (substring of the subject, property, what failed)
     ("engine error raised while an exception was pending", "C07", "`try { throw 1 } catch (e) { throw 2 } finally { for(;;){} }` under a loop limit left pending_exception set; a later generator.return() threw the stale 2"),
     ("continue to an outer label of a label set", "C08", "`a: b: do { if (++n>300) break; continue a; } while(true)` with loop limit 3 ran 301 bodies: the jump skipped the condition and IncrementLoopIteration (also a C01 deviation: do-while condition skipped, for initializer re-run)"),
     ("iterator-consuming builtins were not subject to the loop-iteration limit", "C08", "`[...it]`, `Array.from(it)`, `new Set(it)`, `var [...r]=it`, `Promise.all(it)` over an endless user iterator were never stopped by the loop-iteration limit"),
+    ("cached super.x = v wrote into the super object", "C06", "`H={m(v){super.p0=v}}` with super = A: after `m.call(A,5); m.call(A,6)` a warm site made `m.call(r,7)` write into A instead of defining r.p0"),
     ("AST printer", "C19", None),
     ("Map/Set clear() under a live iterator", "C20", "`m.clear(); m.set(4,4); it.next()` on a running iterator reported done (spec/V8: 4) — deterministic deviation found by the C20 model refinement"),
     ("for_each_native looped forever", "C20", "JsMap/JsSet::for_each_native hung on a Map that had a deletion while an iterator was alive"),
